@@ -34,6 +34,12 @@ theorem fmtFloatG_noPanic (k : FltKind) (q : Rat) : NoPanicRes (fmtFloatG k q) :
 theorem fmtFloatF_noPanic (k : FltKind) (q : Rat) : NoPanicRes (fmtFloatF k q) := by
   unfold fmtFloatF; split <;> trivial
 
+theorem timeString_noPanic (u : Int) : NoPanicRes (timeString u) := by
+  unfold timeString; split <;> trivial
+
+theorem timeObjectText_noPanic (u : Int) : NoPanicRes (timeObjectText u) := by
+  unfold timeObjectText; split <;> trivial
+
 theorem mapText_noPanic (es : List (GoVal × Bytes)) : NoPanicRes (mapText es) := by
   unfold mapText; split <;> trivial
 
@@ -53,9 +59,12 @@ theorem sprint_noPanic : ∀ v : GoVal, NoPanicRes (sprint v)
   | .range _ _ => by rw [sprint]; trivial
   | .ptr _ => by rw [sprint]; trivial
   | .nilPtr => by rw [sprint]; trivial
-  | .drop v => by rw [sprint]; exact NoPanicRes.bind (sprint_noPanic v) (fun _ => trivial)
+  | .drop v => by
+    rw [sprint]; split
+    · trivial
+    · exact NoPanicRes.bind (sprint_noPanic v) (fun _ => trivial)
   | .struct fs => by rw [sprint]; exact NoPanicRes.bind (sprintFields_noPanic fs) (fun _ => trivial)
-  | .time _ => by rw [sprint]; trivial
+  | .time u => by rw [sprint]; exact timeString_noPanic u
 theorem sprintAll_noPanic : ∀ xs : List GoVal, NoPanicRes (sprintAll xs)
   | [] => by rw [sprintAll]; trivial
   | x :: xs => by
@@ -117,7 +126,7 @@ theorem writeObjectL_noPanic : ∀ v : GoVal, NoPanicRes (writeObjectL v)
   | .nilPtr => by rw [writeObjectL]; trivial
   | .drop _ => by simp only [writeObjectL]; exact sprint_noPanic _
   | .struct _ => by simp only [writeObjectL]; exact sprint_noPanic _
-  | .time _ => by rw [writeObjectL]; trivial
+  | .time u => by rw [writeObjectL]; exact timeObjectText_noPanic u
 termination_by v => sizeOf v
 decreasing_by all_goals simp_wf; omega
 theorem writeObjects_noPanic : ∀ xs : List GoVal, NoPanicRes (writeObjects xs)
@@ -197,7 +206,7 @@ theorem convert_noPanic (v : GoVal) (t : ParamTy) : NoPanicRes (convert v t) := 
     · trivial
   · split
     · trivial
-    · trivial
+    · exact NoPanicRes.bind (timeString_noPanic _) (fun _ => trivial)
     · refine NoPanicRes.bind ?_ (fun _ => trivial)
       split
       · exact fmtFloatF_noPanic _ _
@@ -209,7 +218,10 @@ theorem convert_noPanic (v : GoVal) (t : ParamTy) : NoPanicRes (convert v t) := 
       · trivial
       · split <;> trivial
     all_goals trivial
-  · split <;> trivial
+  · split
+    · trivial
+    · split <;> trivial
+    · trivial
 
 /-! ### the result of a successful conversion has the target type -/
 
@@ -249,7 +261,7 @@ theorem convert_hasTy {v : GoVal} {t : ParamTy} {c : GoVal} (h : convert v t = .
     · cases h
   · split at h
     · cases h; exact ⟨_, rfl⟩
-    · cases h
+    · obtain ⟨n, _, h⟩ := Res.bind_eq_ok h; cases h; exact ⟨_, rfl⟩
     · obtain ⟨n, _, h⟩ := Res.bind_eq_ok h; cases h; exact ⟨_, rfl⟩
     · obtain ⟨n, _, h⟩ := Res.bind_eq_ok h; cases h; exact ⟨_, rfl⟩
   · split at h
@@ -261,7 +273,10 @@ theorem convert_hasTy {v : GoVal} {t : ParamTy} {c : GoVal} (h : convert v t = .
       | (cases h; done)
       | (cases h; exact ⟨_, rfl⟩)
       | (obtain ⟨n, _, h⟩ := Res.bind_eq_ok h; cases h; exact ⟨_, rfl⟩)
-  · split at h <;> cases h; exact ⟨_, rfl⟩
+  · split at h
+    · cases h; exact ⟨_, rfl⟩
+    · split at h <;> cases h; exact ⟨_, rfl⟩
+    · cases h
 
 /-! ## `values.Call`: the converted arguments are well typed -/
 
